@@ -234,6 +234,9 @@ func (r *verifApiRun) do(method, path string, hdr map[string]string, basic *[2]s
 	}
 	req.URL.Path = path
 	req.URL.RawPath = ""
+	if i := strings.IndexByte(path, '?'); i >= 0 { // "<path>?<raw query>"
+		req.URL.Path, req.URL.RawQuery = path[:i], path[i+1:]
+	}
 	for k, v := range hdr {
 		req.Header[k] = []string{v}
 	}
@@ -912,6 +915,11 @@ func (r *verifApiRun) op(tok string) (obs string) {
 			bobs = verifApiHex(basic[0]) + "." + verifApiHex(basic[1])
 		}
 		body := []byte(verifApiUnhex(a[5]))
+		query := "-"
+		pathOnly := path
+		if i := strings.IndexByte(path, '?'); i >= 0 {
+			pathOnly, query = path[:i], verifApiHex(path[i+1:])
+		}
 		verifApiBarrier()
 		ss, last, dg := r.sessions(), verifApiLastProcessed(), r.digest()
 		d := r.begin()
@@ -931,8 +939,8 @@ func (r *verifApiRun) op(tok string) (obs string) {
 		}
 		leak := r.leak(res.body)
 		stream := r.streamProbe() // after everything else was measured: the probe itself posts a message
-		return fmt.Sprintf("R|m=%s|p=%s|h=%s|ba=%s|b=%s|jp=%s|jd=%s|last=%d|ss=%s|status=%d|class=%s|%s|leak=%d|same=%d|blen=%d|stream=%s", meth, verifApiHex(path),
-			hobs, bobs, verifApiHex(string(body)), verifApiJSONPost(body), verifApiJSONDelete(body), last, ss, res.status, class, tail, leak, same, len(res.body), stream)
+		return fmt.Sprintf("R|m=%s|p=%s|q=%s|h=%s|ba=%s|b=%s|jp=%s|jd=%s|last=%d|ss=%s|status=%d|class=%s|%s|leak=%d|same=%d|blen=%d|stream=%s", meth, verifApiHex(pathOnly),
+			query, hobs, bobs, verifApiHex(string(body)), verifApiJSONPost(body), verifApiJSONDelete(body), last, ss, res.status, class, tail, leak, same, len(res.body), stream)
 
 	case "W":
 		path := verifApiUnhex(a[1])
@@ -1056,13 +1064,18 @@ func TestVerifApi(t *testing.T) {
 		if len(f) < 2 {
 			continue
 		}
-		obs := []string{f[0], f[1]}
+		// every observation is written (and flushed) as soon as its op is done: if a request makes the
+		// process exit (log.Fatalf in handleQuit, exitOnRecover after a handler panic) the observations so
+		// far survive and the unfinished line tells the harness which op was being served
 		r.slots = map[int]*verifApiSlot{} // slots are per case; sessions of earlier cases stay on the node
+		fmt.Fprintf(w, "%s %s", f[0], f[1])
+		w.Flush()
 		for _, tok := range f[2:] {
-			obs = append(obs, r.op(tok))
+			fmt.Fprintf(w, " %s", r.op(tok))
+			w.Flush()
 		}
 		r.closeWatch()
-		fmt.Fprintln(w, strings.Join(obs, " "))
+		fmt.Fprintln(w)
 		w.Flush()
 	}
 	verifApiCurMu.Lock()
